@@ -415,4 +415,27 @@ PROPS = {
             {"pkg": S, "test": "TestVerifC12", "quick": (16, 120), "thorough": (16, 12000), "timeout_q": 1500},
         ],
     },
+    "C17": {
+        "level": "exploration",
+        "claim": ("Virtual-time topology: a VPN peer P (ipv4-vpn), a VPN peer Q that also negotiates Route Target Constraint, two CE "
+                  "peers attached to VRFs v0 and v1, a third VRF that is added and deleted during the history; VRFs get generated "
+                  "overlapping import/export route-target sets over a pool of four targets. Histories of 3-30 operations: VPN "
+                  "announcements (re-announcements with a different target set included) and withdrawals by P, CE announcements and "
+                  "withdrawals, RT membership announcements and withdrawals by Q (duplicates, two origin AS numbers, the default "
+                  "membership, withdrawals of memberships that were never announced), VRF add/delete. After every operation, with G = "
+                  "P's VPN routes plus the CE routes exported with their VRF's RD and export targets: ListPath(vrf) equals the members "
+                  "of G meeting the VRF's import set; each CE holds exactly the importable prefixes it did not originate; P holds "
+                  "exactly the exported CE routes with the VRF's RD and export targets; Q holds exactly the members of G for whose "
+                  "targets it has a membership (or the default)."),
+        "note": ("Each prefix is announced under one RD only (see known finding C17-K1: no best-path choice across RDs when exporting "
+                 "to a VRF's CE); EVPN, IPv6 VPN, FlowSpec VPN, ADD-PATH ids on memberships, import policy on RTC routes and label "
+                 "values are not generated; hash-colliding destinations are not reached."),
+        "technique": "model-based property testing (rapid) of VRF / route-target / membership histories in virtual time against a set model",
+        "rule": ("non-trivial when the history contains a membership operation, at least two routes exist and Q's view was a strict "
+                 "subset of G at some point; distinct by case hash"),
+        "assumptions": [],
+        "units": [
+            {"pkg": S, "test": "TestVerifC17", "quick": (16, 120), "thorough": (16, 10000), "timeout_q": 1500},
+        ],
+    },
 }
